@@ -193,11 +193,14 @@ impl<'a> SectionsBuilder<'a> {
                 self.builder.quote();
                 self.set_lines_range(quote.line_range);
                 let id = self.builder.id();
-                SectionsBuilder::new(
+                // the nodes below the quote keep their line ranges, after the quote's own entry
+                let nodes_map = SectionsBuilder::new(
                     &mut self.builder.graph().builder(id),
                     &quote.blocks,
                     &self.key,
-                );
+                )
+                .nodes_map();
+                self.nodes_map.extend(nodes_map);
             }
             HorizontalRule(rule) => {
                 self.builder.horizontal_rule();
